@@ -282,6 +282,8 @@ def judge(v, traces, scs, labels=None):
                         {'scenario': scn, 'failed': mine, 'step': f['s']})
     q = sum(x['q'] for x in vlib.tlc_prints(r.stdout, 'Q '))
     v.cov['quiescent_steps_evaluated'] = v.cov.get('quiescent_steps_evaluated', 0) + q
+    v.cov['lost_process_obligations'] = (v.cov.get('lost_process_obligations', 0)
+                                         + sum(x.get('kn', 0) for x in vlib.tlc_prints(r.stdout, 'Q ')))
     v.cov['traces_validated_against_impl'] += len(traces)
     v.cov['evaluations'] += sum(len(t['steps']) for t in traces)
 
